@@ -13,7 +13,7 @@ from vlib.runner import Violation, sut
 from vlib.spec import build
 
 ID = "C19"
-BUDGET = {"quick": 960, "thorough": 16000}
+BUDGET = {"quick": 960, "thorough": 40000}
 RULE = ("Generated: a single circuit (every input type, constants, some tensors non-learnable, shared sub-circuits, "
         "multi-output) or an operator pipeline (1..3 operators incl. evidence layers and pointer parameters) x "
         "semiring x fold x optimize x values; a drawn history of 2..5 steps from {save, perturb, reset, load k}. "
